@@ -948,6 +948,20 @@ def r14_distinct_keeps_rows(ctx, res):
             occ0 = [o for o in st.occs if o.scope == 0 and o.kind == 'table']
             main = occ0[0] if occ0 else None
             ok = main is not None and (f'{main.alias}.rowid' in sel or ('rowid' in sel and len(occ0) == 1))
+            if not ok:
+                # the distinct VALUES of a shared lookup table (lexfile names, relation types): every selected column is a unique
+                # key of such a table, so equal rows are the same lookup row reached through several content rows
+                lookups = ctx.schema.lookup_tables()
+                by_alias = {o.alias: o.table for o in occ0}
+
+                def unique_lookup_col(item):
+                    if '.' not in item:
+                        return False
+                    a, c = item.split('.', 1)
+                    t = by_alias.get(a)
+                    return t in lookups and any(u == (c,) for u in ctx.schema.uniques.get(t, []))
+                if sel and all(unique_lookup_col(x) for x in sel):
+                    ok = True
             res.inst(key, site.loc, f'DISTINCT; lists rows of {main.table if main else None}; row key selected: {ok}')
             if not ok:
                 res.find(key, site.loc,
